@@ -185,6 +185,10 @@ func (e *env) runForced(progs []prog, sched []int, debug bool) result {
 			case "summon.entered":
 				l = common.App("LEntered", sl())
 			case "summon.ctxleave":
+				// the leave bookkeeping of the same step was already logged as summon.leave: drop it
+				if n := len(batch); n > 0 && batch[n-1].T == ev.Tid && strings.HasPrefix(batch[n-1].L, "(LLeave ") {
+					batch = batch[:n-1]
+				}
 				l = common.App("LCtxLeave", sl())
 			case "summon.found":
 				l = common.App("LFound", in())
@@ -211,6 +215,8 @@ func (e *env) runForced(progs []prog, sched []int, debug bool) result {
 				l = common.App("LCloseSkip", common.Nat(int(a(0))))
 			case "swamp.cancelling":
 				l = common.App("LCancelled", in())
+			case "swamp.callback":
+				l = common.App("LCbStart", in())
 			case "swamp.callback.done":
 				l = common.App("LCallback", in())
 			case "swamp.destroy.marked":
@@ -222,7 +228,7 @@ func (e *env) runForced(progs []prog, sched []int, debug bool) result {
 			case "ctx.cancel":
 				l = common.App("LCancel", common.Nat(int(a(0))))
 			case "summon.woke", "summon.load", "summon.body", "summon.store", "summon.exit", "summon.broadcast",
-				"swamp.callback", "swamp.mapdelete", "swamp.destroy.drained", "summon.slotdelete",
+				"swamp.mapdelete", "swamp.destroy.drained", "summon.slotdelete",
 				"swamp.idle.read", "swamp.idle.close", "swamp.autodestroy", "summon.predec", "summon.predelete":
 				continue
 			default:
@@ -232,9 +238,13 @@ func (e *env) runForced(progs []prog, sched []int, debug bool) result {
 			batch = append(batch, obsEv{T: ev.Tid, L: l, Map: -1, human: fmt.Sprintf("t%d %s %v", ev.Tid, ev.Site, ev.Args)})
 		}
 		consumed = len(log)
-		if len(batch) > 0 && forced {
-			batch[len(batch)-1].Sampled = true
-			batch[len(batch)-1].Map = sampleMap()
+		last := len(batch) - 1
+		for last >= 0 && strings.HasPrefix(batch[last].L, "(LCbStart ") {
+			last--
+		}
+		if last >= 0 && forced {
+			batch[last].Sampled = true
+			batch[last].Map = sampleMap()
 		} else {
 			sampleMap()
 		}
@@ -499,7 +509,9 @@ func (e *env) stress(rng *common.Rng, round int, nsummon, nnames int, dur time.D
 		if len(ev.Args) == 0 {
 			continue
 		}
-		if ev.Site != "swamp.new" && ev.Site != "swamp.cancelling" {
+		lbl, ok := map[string]string{"swamp.new": "LNew", "swamp.cancelling": "LCancelled", "swamp.close.begin": "LCloseBegin",
+			"swamp.destroy.begin": "LDBegin", "swamp.callback": "LCbStart"}[ev.Site]
+		if !ok {
 			continue
 		}
 		v, ok := idName.Load(ev.Args[0])
@@ -509,10 +521,6 @@ func (e *env) stress(rng *common.Rng, round int, nsummon, nnames int, dur time.D
 			continue
 		}
 		k := v.(int)
-		lbl := "LNew"
-		if ev.Site == "swamp.cancelling" {
-			lbl = "LCancelled"
-		}
 		per[k] = append(per[k], obsEv{T: 0, L: common.App(lbl, common.Nat(nums[k].get(ev.Args[0]))), Map: -1,
 			human: fmt.Sprintf("g%d %s %v", ev.Gid, ev.Site, ev.Args)})
 	}
@@ -533,13 +541,13 @@ func (e *env) stress(rng *common.Rng, round int, nsummon, nnames int, dur time.D
 			chunk = append(chunk, o)
 			if strings.HasPrefix(o.L, "(LNew ") {
 				live[o.L[6:]] = true
-			} else {
+			} else if strings.HasPrefix(o.L, "(LCancelled ") {
 				delete(live, o.L[12:])
 			}
 			if len(live) > maxLive {
 				maxLive = len(live)
 			}
-			if len(live) == 0 && len(chunk) >= 600 {
+			if len(live) == 0 && len(chunk) >= 100000 {
 				flush()
 			}
 		}
@@ -605,8 +613,11 @@ func main() {
 	S := prog{pSummon, 0}
 	// witnesses (the same lists as witness_old / witness_late in Conc/Summon.v; on the fixed code the
 	// exit is one step, the extra entries of a finished thread are skipped)
+	// in the harness a woken waiter re-checks by itself (no step of the schedule is needed for it):
+	// A: load, enter, nil, create, store | B: load, wait | A: exit (B wakes, takes the slot)
+	// | Destroy(0) x4 | B: nil | C: load, enter, nil | B: create | C: create
 	jobs = append(jobs, job{[]prog{S, S, S, {pDestroy, 0}},
-		[]int{0, 0, 0, 0, 0, 1, 1, 0, 0, 0, 0, 3, 3, 3, 3, 1, 2, 2, 1, 1, 2, 2}, "witness_old"})
+		[]int{0, 0, 0, 0, 0, 1, 1, 0, 3, 3, 3, 3, 1, 2, 2, 2, 1, 2}, "witness_old"})
 	jobs = append(jobs, job{[]prog{S, {pClose, 0}, S, {pDestroy, 0}, S},
 		[]int{0, 0, 0, 0, 0, 0, 1, 1, 1, 2, 2, 2, 2, 2, 2, 3, 3, 3, 3, 4, 4, 4, 4}, "witness_late"})
 	// systematic: A runs p steps, B runs q steps, A finishes, destroy(0) completes, C, then all
